@@ -39,7 +39,63 @@ def variant_truth(prog, fn):
     return out
 
 
+def pass_exhaustiveness(prog, rep, R):
+    """C14.f — passes over the directive tree stop only when every section is explored: `explored` is a conjunction over ALL sections
+    (recursively), `pass` visits ALL sections, the nested arm picks the first unexplored branch (or the last), and PassIter stops exactly
+    on `tree.explored()`.  The traversals are checked as complete, unadapted iterations (no step_by / skip / take / filter / split)."""
+    DT = "pasfmt_core::defaults::parser::directive_tree::"
+    allowed = {"core::ops::deref::Deref::deref", "core::ops::deref::DerefMut::deref_mut", "core::slice::iter", "core::slice::iter_mut",
+               "core::iter::traits::iterator::Iterator::all", "core::iter::traits::collect::IntoIterator::into_iter", "core::iter::traits::iterator::Iterator::next",
+               "itertools::Itertools::find_or_last", "core::iter::traits::collect::Extend::extend", "core::clone::Clone::clone", "alloc::vec::Vec::new",
+               DT + "Section::explored", DT + "DirectiveTree::explored", DT + "Section::pass", DT + "DirectiveTree::pass"}
+    need = {
+        DT + "DirectiveTree::explored": {"core::slice::iter", "core::iter::traits::iterator::Iterator::all"},
+        DT + "DirectiveTree::explored::{closure#0}": {DT + "Section::explored"},
+        DT + "Section::explored": {"core::slice::iter", "core::iter::traits::iterator::Iterator::all"},
+        DT + "Section::explored::{closure#0}": {DT + "DirectiveTree::explored"},
+        DT + "DirectiveTree::pass": {"core::iter::traits::collect::IntoIterator::into_iter", "core::iter::traits::iterator::Iterator::next", DT + "Section::pass"},
+        DT + "Section::pass": {"core::slice::iter_mut", "itertools::Itertools::find_or_last", DT + "DirectiveTree::pass", "core::iter::traits::collect::Extend::extend"},
+        DT + "Section::pass::{closure#0}": {DT + "DirectiveTree::explored"},
+        "<" + DT + "PassIter as core::iter::traits::iterator::Iterator>::next": {DT + "DirectiveTree::pass", DT + "DirectiveTree::explored", "alloc::vec::Vec::new"},
+    }
+    for name, must in need.items():
+        b = prog.body(name)
+        if not rep.check(b is not None, R, "anchor:" + short(name), "%s not found" % short(name)):
+            continue
+        calls = [c.callee for c in b.calls()]
+        extra = sorted(set(c for c in calls if c not in allowed and not (c or "").startswith("core::ops::function")))
+        missing = sorted(must - set(calls))
+        rep.check(not extra and not missing, R, "traversal:" + short(name), "%s no longer is a complete, unadapted traversal: unreviewed calls %s, missing %s" % (short(name), extra, missing),
+                  where="%s:%d" % (b.file, b.line), instance={"fn": short(name), "calls": sorted(set((c or "?").split("::")[-1] for c in calls))})
+    # the `for section in &mut self.sections` loop of DirectiveTree::pass leaves only on exhaustion
+    b = prog.body(DT + "DirectiveTree::pass")
+    if b is not None:
+        nx = [c for c in b.calls() if c.callee == "core::iter::traits::iterator::Iterator::next"]
+        ok = len(nx) == 1 and nx[0].bb in b.loops()
+        if ok:
+            L = b.loops()[nx[0].bb]
+            rets = set(b.return_blocks())
+            tgt = nx[0].t.get("target")
+            exits = [(u, v) for u in L for v in b.succ[u] if v not in L and (b.reach_from(v, include_start=True) & rets)]
+            ok = all(u in (nx[0].bb, tgt) or b.blocks[u]["term"]["k"] == "switch" and b.dominates(tgt, u) and not [c for c in b.calls() if c.bb in L and b.dominates(c.bb, u) and c.bb != nx[0].bb] for u, v in exits)
+        rep.check(ok, R, "pass-visits-all-sections", "DirectiveTree::pass does not visit every section on every pass", instance={"loop": "for section in &mut self.sections"})
+    # PassIter::next: exhausted := tree.explored()
+    nb = prog.body("<" + DT + "PassIter as core::iter::traits::iterator::Iterator>::next")
+    if nb is not None:
+        st = [a for a in prog.field_accesses(DT + "PassIter", "exhausted", within={nb.npath}) if a[3].startswith("write")]
+        ok = len(st) == 1 and i_is_explored(nb, st[0])
+        rep.check(ok, R, "exhausted=tree.explored()", "PassIter::next no longer sets `exhausted` from `tree.explored()` exactly", instance={"stores": len(st)})
+
+
+def i_is_explored(nb, acc):
+    b, bb, i, kind, s = acc
+    if i == "term" or s["rv"]["k"] != "use":
+        return False
+    return canon(nb, s["rv"]["op"]).startswith("explored(arg1.tree")
+
+
 def check_c14(prog, rep, tier, cfg):
+    pass_exhaustiveness(prog, rep, "C14.f")
     # ---------------------------------------------------------------- C14.a cursor writers & push-before-advance
     R = "C14.a"
     acc = prog.field_accesses(LLP, "pass_index")
@@ -232,5 +288,5 @@ PROPERTIES = {
             "conditional directive — get their own line in parse_file's directive pass unless next_token attributed them to a line; (c) is_if/is_else/is_end partition all "
             "ConditionalDirectiveKind variants (exhaustive, disjoint: otherwise a directive gets no line or two); (d) each pass unconditionally ends with the Eof line, and pass "
             "consolidation skips only empty lines; (e) the lists of line tokens are mutated only by the reviewed functions and the directive tree is built from the whole "
-            "token slice. Not decided: strictly-increasing order, parent clauses, merging of passes.", []),
+            "token slice; (f) passes stop only when every section of the directive tree is explored: explored()/pass() are complete, unadapted traversals of all sections, PassIter::next sets exhausted = tree.explored(). Not decided: strictly-increasing order, parent clauses, merging of passes.", []),
 }
